@@ -127,7 +127,9 @@ class _ScaleToTestDate:
             yield 'factor == documented fraction of the forecast duration (end of test day)', \
                 to_real(self.fields['_scale']) == (DY(t + day) - DY(st)) / (DY(en) - DY(st))
         else:
-            yield 'outside (start, end): left unscaled', z3.BoolVal(self.fields['_scale'] is _s and not self.written)
+            # documented: "if datetime is before the start_date or after the end_date, we will scale the forecast by unity"
+            yield 'outside (start, end): scaled by unity (absolute, an earlier factor does not survive)', \
+                to_real(self.fields['_scale']) == 1
 
 
 @contract
